@@ -612,7 +612,7 @@ class ProcessLauncher:
         :param tag: the checkpoint tag to continue from
         """
         if self._persister is None:
-            LOGGER.warning('rejecting task: cannot continue process<%d> because no persister is available', pid)
+            LOGGER.warning('rejecting task: cannot continue process<%s> because no persister is available', pid)
             raise communications.TaskRejected('Cannot continue process, no persister')
 
         # Do not catch exceptions here, because if these operations fail, the continue task should except and bubble up
